@@ -70,7 +70,7 @@ func ZZ_C05_TextPack() {
 	body.add("record-count", zz5Dec(int64(len(p.records))))
 	for i := range p.records {
 		r := p.records[i]
-		body.add("record", zz5I32(r.Hash), []byte{r.Div}, zz5Text(r.Text))
+		body.add("record", []byte{r.Div}, zz5I32(r.Hash), zz5Text(r.Text))
 	}
 	zz5Check("TextPack", 0x0700, p, &p.AbstractPack, body)
 }
@@ -98,8 +98,8 @@ func ZZ_C05_ParamPack() {
 	zz5HeaderForm(p)
 	var body zz5Secs
 	body.add("id", zz5I32(p.Id))
-	body.add("response", zz5Dec(p.Response))
 	body.add("request", zz5Dec(p.Request))
+	body.add("response", zz5Dec(p.Response))
 	body.add("entry-count", zz5Dec(int64(n)))
 	body.add("entries", entries)
 	zz5Check("ParamPack", 0x0100, p, &p.AbstractPack, body)
@@ -111,16 +111,20 @@ func ZZ_C05_ParamPack() {
 // the tagged tag map. Two regimes:
 //   - the hash is given (non-zero, symbolic; or anything when there are no tags): it is
 //     written as is; tag values symbolic;
+//     (hashSlot = Fill slot of the hash member: header slots, Category, then the hash)
 //   - the hash is 0 and there are tags: the pack hashes its encoded tags; the reference
-//     hashes ITS encoding of the tags with the real hash.Hash64 (tag contents concrete).
-func zz5Tags(hashField *int64) (tags *value.MapValue, hashRef, tagsRef []byte, n int) {
+//     hashes ITS encoding of the tags with the real hash.Hash64 (one tag with a symbolic
+//     text byte, or two tags with concrete contents: see zz5HashedTags).
+func zz5Tags(hashField *int64, hashSlot int) (tags *value.MapValue, hashRef, tagsRef []byte, n int) {
 	n = zz5Size(2)
 	if n > 0 && zz5Focus == -1 && zzvf.Choose(2) == 0 {
 		*hashField = 0
-		m, r := zz5ConcreteTags(n)
-		return m, zz5Dec(hash.Hash64(r[1:])), r, n
+		m, r := zz5HashedTags(n)
+		return m, zz5Dec(hash.Hash64(r)), r, n
 	}
-	if n > 0 {
+	if n > 0 && zz5Focus == hashSlot {
+		// the hash is this run's focus slot (whole range): exclude the value 0 that selects
+		// the other regime. (Outside the focus Fill keeps it in 1..100.)
 		zzvf.Assume(*hashField != 0)
 	}
 	m, r := zz5Map(n, 1+zzvf.Choose(2)) // text,float / float,double
@@ -133,7 +137,7 @@ func ZZ_C05_TagCountPack() {
 	p := NewTagCountPack()
 	zz5Fill(p, true)
 	zz5HookBegin(0)
-	tags, hashRef, tagsRef, _ := zz5Tags(&p.tagHash)
+	tags, hashRef, tagsRef, _ := zz5Tags(&p.tagHash, zzvf.FillCount(&p.AbstractPack)+1)
 	p.Tags = tags
 	data, dataRef := zz5Map(zz5Size(2), 0) // decimal, text
 	p.Data = data
@@ -154,7 +158,7 @@ func ZZ_C05_LogSinkPack() {
 	p := NewLogSinkPack()
 	zz5Fill(p, true)
 	zz5HookBegin(0)
-	tags, hashRef, tagsRef, _ := zz5Tags(&p.TagHash)
+	tags, hashRef, tagsRef, _ := zz5Tags(&p.TagHash, zzvf.FillCount(&p.AbstractPack)+1)
 	p.Tags = tags
 	var fieldsRef []byte
 	switch n := zz5Size(3); n {
@@ -245,8 +249,8 @@ func ZZ_C05_EventPack() {
 	body.add("attr-count", []byte{byte(cnt)})
 	body.add("attr-user", attrs)
 	body.add("attr-uuid", uuid)
-	body.add("attr-status", zz5Text("_status_"), zz5Text(zz5Itoa(p.Status)))
 	body.add("attr-escalation", zz5Text("_esca_"), zz5Text(esca))
+	body.add("attr-status", zz5Text("_status_"), zz5Text(zz5Itoa(p.Status)))
 	body.add("attr-otype", zz5Text("_otype_"), zz5Text(zz5Itoa(p.Otype)))
 	zz5Check("EventPack", 0x1400, p, &p.AbstractPack, body)
 }
@@ -270,7 +274,7 @@ func ZZ_C05_ZipPack() {
 	zz5HeaderForm(p)
 	var body zz5Secs
 	body.add("status", []byte{p.Status})
-	body.add("record-count", zz5I32(int32(p.RecordCount)))
+	body.add("record-count", zz5Dec(int64(p.RecordCount)))
 	body.add("records", zz5Blob(p.Records))
 	zz5Check("ZipPack", 0x170b, p, &p.AbstractPack, body)
 }
@@ -288,7 +292,7 @@ func ZZ_C05_HitMapPack1() {
 	for i := 0; i < 120; i++ {
 		h, e := zzvf.Int32(), zzvf.Int32()
 		p.Hit[i], p.Error[i] = h, e
-		cells = zz5Cat(cells, zz5BE(uint64(e), 2), zz5BE(uint64(h), 2))
+		cells = zz5Cat(cells, zz5BE(uint64(h), 2), zz5BE(uint64(e), 2))
 	}
 	zz5HeaderForm(p)
 	var body zz5Secs
